@@ -112,7 +112,9 @@ func rpcChecks(o *hx.Out, k int, r *prng.R, bc *core.Blockchain, recs map[uint32
 	}
 	defer n.cancel()
 	top := bc.BlockHeight()
-	id4 := hx.Hex(idKey(id, nil))
+	// the RPC methods are addressed by contract hash: the driver resolves the id from Management's
+	// record of the hash at the same height (Model/StateCommit/RpcId.lean)
+	id4 := hx.Hex(append(idKey(bc.NativeManagementID(), nil), hash.BytesBE()...))
 	pre := string(idKey(id, nil))
 	for _, h := range heights {
 		rec := recs[h]
